@@ -1,6 +1,7 @@
 # specs.c01 -- C01 / C09: lemmas over the contracts discharged elsewhere (pure SMT validity queries), and TapeRecorder.__init__.
 # Hypotheses of each lemma are clauses that are obligations of the named units; the lemma composes them.
 import time
+import os
 import z3
 
 from pyvc.vals import Val, NONE, S, B, I, K, LAT, TYP, SeqV, Str, AVV, AVB, BASE, fresh, truthy, St
@@ -65,7 +66,7 @@ def lemmas(props=None):
 def tr_init(props=None):
     """TapeRecorder.__init__ establishes Idle and the class invariant: a fresh recorder satisfies the precondition of every run-level unit, and
     those units assume nothing else about the recorder's past -- which is the history-independence sentence of C09"""
-    repo = Repo('/repo'); ex = lib.install(Exec(repo, None))
+    repo = Repo(); ex = lib.install(Exec(repo, None))
 
     def l_random(ex_, s, pos, kw, node, star, dstar):
         return [(s, ('val', s.alloc('Random')))]
